@@ -114,15 +114,30 @@ func (ts *Timers) Add(ctx context.Context, id string, message interface{}, in ti
 
 			// Not exactly what we want ...
 		case <-timer.C:
+			// See https://github.com/Comcast/sheens/issues/19
+			//
+			// Forget this timer before emitting its message,
+			// so that the id can be used again from now on,
+			// also by whatever handles the message.  (Removing
+			// the id after emitting removed a timer that was
+			// made with this id in the meantime.)  If the
+			// entry is gone or isn't ours anymore, then a
+			// Rem() got in first, and we do not fire.
+			ts.Lock()
+			ours := ts.timers[id] == te
+			if ours {
+				delete(ts.timers, id)
+			}
+			ts.Unlock()
+
+			if !ours {
+				return
+			}
+
 			Logf("Timers firing %s", JS(ts))
 			if err := ts.emit(ctx, te.Message); err != nil {
 				ts.err(fmt.Errorf("Timers emit error %v id=%s", err, id))
 			}
-
-			// See https://github.com/Comcast/sheens/issues/19
-			ts.Lock()
-			delete(ts.timers, id)
-			ts.Unlock()
 		}
 	}()
 
